@@ -213,7 +213,7 @@ func c03GenCfg(r *vw.Rng) c03Cfg {
 	c.hb = uint32(r.Range(2, 3))
 	c.elecRange = uint32(r.Range(4, 10))
 	if r.Chance(1, 2) {
-		c.stepdown = c.follower + uint32(r.Range(0, 10))
+		c.stepdown = c.follower + uint32(r.PickInt(0, 3, 10, 25, 60))
 	}
 	c.maxEnts = uint32(r.PickInt(3, 10, 20))
 	c.batch = uint32(r.PickInt(1, 1, 4, 16))
@@ -683,7 +683,8 @@ func c03RunCluster(caseIdx int) *c03Result {
 	}
 	// a final barrier command so that the replicas have something to converge on
 	var barrier *c03Op
-	for try := 0; try < 400 && barrier == nil; try++ {
+	barrierDeadline := time.Now().Add(30 * time.Second)
+	for try := 0; try < 400 && barrier == nil && time.Now().Before(barrierDeadline); try++ {
 		ls := c.believedLeaders()
 		if len(ls) == 0 {
 			time.Sleep(5 * time.Millisecond)
